@@ -371,3 +371,9 @@ func literalValue(t Term) Term {
 	}
 	return t
 }
+
+// Trunc8 declares the truncation function on first use.
+func (d *Decls) Trunc8() string {
+	d.add("trunc8", Trunc8Decl)
+	return "trunc8"
+}
